@@ -22,6 +22,20 @@ def neighbours (bshape : List Nat) (bc : Array Int) : List (List Int) :=
     let k := subPos (unravelI bshape i) c
     if bc.getD i 0 == 0 || isZeroPos k then none else some k
 
+/-- `_remove_centre` (`morph.py`): `Bc[tuple(s//2 for s in Bc.shape)] = False`, done by
+    `locmax`/`locmin`/`regmax`/`regmin` on a copy of the structuring element as given (round 4). -/
+def removeCentre (bshape : List Nat) (bc : Array Int) : Array Int :=
+  bc.setIfInBounds (ravelI bshape (centreOf bshape)) 0
+
+/-- the offsets `filter_iterator(…, compress_zeros = true)` visits: every non-zero entry of the
+    array it is given, the centre included when it is set; scan order. `locmin_max` runs over this
+    list (after `_remove_centre`), `remove_fake_regmin_max` and `close_holes` over `neighbours`
+    (the C++ `neighbours(Bc)`, which skips the centre position itself). -/
+def rawOffsets (bshape : List Nat) (bc : Array Int) : List (List Int) :=
+  let c := centreOf bshape
+  (List.range (shapeSize bshape)).filterMap fun i =>
+    if bc.getD i 0 == 0 then none else some (subPos (unravelI bshape i) c)
+
 /-! ### decidable checks of the hypotheses of the theorems (soundness: `Proofs/StarCheck.lean`) -/
 
 /-- the integers between 0 and `a` (inclusive) -/
@@ -63,6 +77,17 @@ def locSpecAt (isMin : Bool) (A : Img Int) (nb : List (List Int)) (p : List Int)
 
 def locModel (isMin : Bool) (A : Img Int) (nb : List (List Int)) : Array Bool :=
   ((allPos A.shape).map (locAt isMin A nb)).toArray
+
+/-- specification for an **arbitrary** neighbourhood (round 4): the pixel is marked unless the value
+    at some neighbour position *clamped onto the image coordinate by coordinate* (`clampPos`,
+    `max 0 (min x (n-1))`) beats it. For star-shaped neighbourhoods this is `locSpecAt`. -/
+def locClampedSpecAt (isMin : Bool) (A : Img Int) (nb : List (List Int)) (p : List Int) : Bool :=
+  nb.all fun k => !beats isMin (A.getD (clampPos A.shape (addPos p k)) 0) (A.getD p 0)
+
+/-- `mahotas.locmax` / `locmin` on the structuring element **as given**: `_remove_centre`, then the
+    kernel over the compressed footprint of what is left. -/
+def locModelRaw (isMin : Bool) (A : Img Int) (bshape : List Nat) (bc : Array Int) : Array Bool :=
+  locModel isMin A (rawOffsets bshape (removeCentre bshape bc))
 
 /-! ### stack flood fill (shared by `remove_fake_regmin_max` and `close_holes`) -/
 
@@ -123,9 +148,24 @@ def iter {α : Type} (f : α → α) : Nat → α → α
   | 0, x => x
   | n + 1, x => iter f n (f x)
 
+def regBad0 (isMin : Bool) (A : Img Int) (nb : List (List Int)) : Array Bool :=
+  ((allPos A.shape).map fun q => !locSpecAt isMin A nb q).toArray
+
+def regSpecBad (isMin : Bool) (A : Img Int) (nb : List (List Int)) : Array Bool :=
+  iter (badStep A nb) A.size (regBad0 isMin A nb)
+
 def regSpec (isMin : Bool) (A : Img Int) (nb : List (List Int)) : Array Bool :=
-  let bad0 := ((allPos A.shape).map fun q => !locSpecAt isMin A nb q).toArray
-  (iter (badStep A nb) A.size bad0).map (!·)
+  (regSpecBad isMin A nb).map (!·)
+
+/-- did the iteration of `regSpec` reach its fixed point? (one more round changes nothing; the
+    driver prints it, `C14_regspec_eq_regional_partial` needs it) -/
+def regSpecFixed (isMin : Bool) (A : Img Int) (nb : List (List Int)) : Bool :=
+  (badStep A nb (regSpecBad isMin A nb)).toList == (regSpecBad isMin A nb).toList
+
+/-- `mahotas.regmax` / `regmin` on the structuring element as given: `_remove_centre` in Python,
+    `locmin_max` over the compressed footprint, `remove_fake_regmin_max` over `neighbours(Bc)`. -/
+def regModelRaw (isMin : Bool) (A : Img Int) (bshape : List Nat) (bc : Array Int) : Array Bool :=
+  removeFake isMin A (neighbours bshape (removeCentre bshape bc)) (locModelRaw isMin A bshape bc)
 
 /-! ### `close_holes` -/
 
@@ -194,6 +234,42 @@ def hmEvaluated : List Nat → List Nat → List Int → Bool
       decide (min x ((n : Int) - x - 1) ≥ c) && hmEvaluated ns bs xs
   | _, _, _ => false
 
+/-! #### the `slack` loop itself (round 4): a transliteration of the main loop of `hitmiss<T>`, as far as
+     *which flat indices are evaluated* is concerned. `hmEvaluated` above is its closed form; the driver
+     compares the two on every `hitmiss` line (`loopok=`), `C14_hitmiss_loop_table_partial` on a finite table. -/
+
+/-- the `for d` loop inside `while (!slack)`: the first axis whose margin `min(cur[d], dim[d]-cur[d]-1)` is
+    smaller than `Bc.dim(d)/2`, as the number of output positions to zero (`size` = product of the later
+    image sides); `none` when no axis is bad (`!moved`). -/
+def hmFirstBad : List Nat → List Nat → List Int → Option Nat
+  | n :: ns, b :: bs, x :: xs =>
+    if min x ((n : Int) - x - 1) < ((b / 2 : Nat) : Int) then some (shapeSize ns) else hmFirstBad ns bs xs
+  | _, _, _ => none
+
+/-- `for (i = 0; i != N; ++i) { while (!slack) {…} --slack; evaluate i }` with fuel; state: the flat index `i`,
+    the counter `slack`, the flags written so far (reversed: `true` = evaluated, `false` = zero written
+    without evaluating). A skip writes `min(size, N - i)` zeros (`if (i == N) return`). -/
+def hmLoop (shape bshape : List Nat) (N : Nat) (lastSlack : Int) : Nat → Nat → Int → List Bool → List Bool
+  | 0, _, _, acc => acc
+  | fuel + 1, i, slack, acc =>
+    if i ≥ N then acc
+    else if slack == 0 then
+      match hmFirstBad shape bshape (unravelI shape i) with
+      | some size => hmLoop shape bshape N lastSlack fuel (i + size) 0 (List.replicate (min size (N - i)) false ++ acc)
+      | none => hmLoop shape bshape N lastSlack fuel i lastSlack acc
+    else hmLoop shape bshape N lastSlack fuel (i + 1) (slack - 1) (true :: acc)
+
+/-- which positions the loop evaluates, in C order (`slack = input.dim(last) - Bc.dim(last) + 1`; two steps per
+    position suffice as fuel) -/
+def hmLoopFlags (shape bshape : List Nat) : List Bool :=
+  let N := shapeSize shape
+  let lastSlack : Int := (shape.getLastD 0 : Int) - (bshape.getLastD 0 : Int) + 1
+  (hmLoop shape bshape N lastSlack (2 * N + 2) 0 0 []).reverse
+
+/-- the loop and its closed form agree on this image / template shape -/
+def hmLoopOk (shape bshape : List Nat) : Bool :=
+  hmLoopFlags shape bshape == (allPos shape).map (hmEvaluated shape bshape)
+
 /-- model of `hitmiss<T>` at one pixel, the entries tested in the given order. -/
 def hitmissAt (A : Img Int) (bshape : List Nat) (entries : List (List Int × Int)) (p : List Int) : Int :=
   if hmEvaluated A.shape bshape p then
@@ -214,6 +290,28 @@ def hitmissSpecAt (A : Img Int) (bshape : List Nat) (bc : Array Int) (p : List I
         A.getD (addPos p (subPos (unravelI bshape i) (centreOf bshape))) 0 == bc.getD i 0)
   then 1 else 0
 
+/-- closed form of what the `slack` rule does with **even** template sides (round 4): a position at
+    which the template fits is nevertheless skipped when, on some axis with an even side `b`,
+    * the axis is the last one and the image side equals `b` (the margin test at `x = b/2` fails, so
+      the whole row is skipped), or
+    * the axis is not the last one and `x` is the last fitting position `n - b/2`
+      (the symmetric margin rule `min(x, n-1-x) ≥ b/2` rejects it). -/
+def hmEvenExcluded : List Nat → List Nat → List Int → Bool
+  | n :: ns, b :: bs, x :: xs =>
+    (b % 2 == 0 && (if ns.isEmpty then n == b else x == (n : Int) - ((b / 2 : Nat) : Int))) ||
+      hmEvenExcluded ns bs xs
+  | _, _, _ => false
+
+/-- the answer of `hitmiss` in closed form for every template shape (odd, even, larger than the
+    image): 1 exactly when the template fits at `p`, `p` is not one of the positions the even-side
+    rule skips, and every entry different from 2 equals the pixel under it. -/
+def hitmissClosedAt (A : Img Int) (bshape : List Nat) (bc : Array Int) (p : List Int) : Int :=
+  if templateInside A.shape bshape p && !hmEvenExcluded A.shape bshape p &&
+     ((List.range (shapeSize bshape)).all fun i =>
+        bc.getD i 0 == 2 ||
+        A.getD (addPos p (subPos (unravelI bshape i) (centreOf bshape))) 0 == bc.getD i 0)
+  then 1 else 0
+
 /-! ### driver entry -/
 
 /-- the binary image number `idx` of a shape: pixel `j` (C order) is bit `j` of `idx` -/
@@ -222,36 +320,54 @@ def bitImg (shape : List Nat) (idx : Nat) : Img Int :=
 
 def digits (xs : List Int) : String := String.join (xs.map fun x => if x == 0 then "0" else "1")
 
-def handle (a : Args) : String :=
-  let shape := a.nats "shape"
+/-- the structuring element as the Python wrappers obtain it (round 4). Without `arg=` the pair
+    `bshape`/`bc` is the array handed to the kernel (protocol of rounds 1–3, and `hitmiss`, which does not
+    call `get_structuring_elem`). With `arg=none | arg=int v=<n> | arg=array bshape=… bc=…` the argument goes
+    through C01's model of `get_structuring_elem(f, Bc)`: `None` / integers through `translate_sizes` and the
+    cross loop, arrays through the cast to the dtype of the image (`dt=b1|u8|…`; `close_holes` casts to bool;
+    `dt` absent for float images, where every non-zero entry stays non-zero). -/
+def elemOf (a : Args) (ndim : Nat) : Except String (List Nat × Array Int) :=
+  if a.has "arg" then
+    let dt := if a.has "dt" then DT.ofName (a.str "dt") else dtI 64
+    match C01.getStructuringElem dt ndim (C01.bcArgOf a) with
+    | .ok e => .ok e
+    | .error e => .error (C01.showSEError e)
+  else .ok (a.nats "bshape", (a.ints "bc").toArray)
+
+def handleWith (a : Args) (shape bshape : List Nat) (bc : Array Int) : String :=
   let A : Img Int := { shape := shape, data := (a.ints "data").toArray }
-  let bshape := a.nats "bshape"
-  let bc := (a.ints "bc").toArray
   match a.str "kind" with
   | "loc" =>
     let isMin := a.nat "min" == 1
     let nb := neighbours bshape bc
     let regular := starShapedB nb && symNbB shape.length nb
-    s!"model={showBools (locModel isMin A nb).toList} spec={showBools ((allPos shape).map (locSpecAt isMin A nb))} regular={if regular then 1 else 0}"
+    let star := starShapedB nb
+    s!"model={showBools (locModelRaw isMin A bshape bc).toList} spec={showBools ((allPos shape).map (locSpecAt isMin A nb))} cspec={showBools ((allPos shape).map (locClampedSpecAt isMin A nb))} regular={if regular then 1 else 0} star={if star then 1 else 0}"
   | "reg" =>
     let isMin := a.nat "min" == 1
     let nb := neighbours bshape bc
     let regular := starShapedB nb && symNbB shape.length nb
-    s!"model={showBools (regModel isMin A nb).toList} spec={showBools (regSpec isMin A nb).toList} loc={showBools ((allPos shape).map (locSpecAt isMin A nb))} regular={if regular then 1 else 0}"
+    -- `big=1` (size-threshold cases): the fixed-point specification is quadratic and is left out
+    let big := a.nat "big" == 1
+    let specS := if big then "" else showBools (regSpec isMin A nb).toList
+    let fixS := if big || regSpecFixed isMin A nb then 1 else 0
+    s!"model={showBools (regModelRaw isMin A bshape bc).toList} spec={specS} loc={showBools ((allPos shape).map (locSpecAt isMin A nb))} regular={if regular then 1 else 0} fix={fixS}"
   | "holes" =>
     let nb := neighbours bshape bc
     let regular := symNbB shape.length nb
-    s!"model={showBools (closeHoles A nb).toList} spec={showBools (closeHolesSpec A nb).toList} regular={if regular then 1 else 0}"
+    let specS := if a.nat "big" == 1 then "" else showBools (closeHolesSpec A nb).toList
+    s!"model={showBools (closeHoles A nb).toList} spec={specS} regular={if regular then 1 else 0}"
   | "hitmiss" =>
     let es := hmEntries bshape bc
-    s!"model={showInts ((allPos shape).map (hitmissAt A bshape es))} modelrev={showInts ((allPos shape).map (hitmissAt A bshape es.reverse))} spec={showInts ((allPos shape).map (hitmissSpecAt A bshape bc))}"
+    s!"model={showInts ((allPos shape).map (hitmissAt A bshape es))} modelrev={showInts ((allPos shape).map (hitmissAt A bshape es.reverse))} spec={showInts ((allPos shape).map (hitmissSpecAt A bshape bc))} closed={showInts ((allPos shape).map (hitmissClosedAt A bshape bc))} loopok={if hmLoopOk shape bshape then 1 else 0}"
   | "hmblock" =>
     -- all binary images with index in [lo, hi) (pixel j of image `idx` = bit j of `idx`); digits, no separators
     let es := hmEntries bshape bc
     let idxs := (List.range (a.nat "hi" - a.nat "lo")).map (· + a.nat "lo")
     let model := idxs.map fun idx => digits ((allPos shape).map fun p => hitmissAt (bitImg shape idx) bshape es p)
     let spec := idxs.map fun idx => digits ((allPos shape).map fun p => hitmissSpecAt (bitImg shape idx) bshape bc p)
-    s!"model={String.join model} spec={String.join spec}"
+    let closed := idxs.map fun idx => digits ((allPos shape).map fun p => hitmissClosedAt (bitImg shape idx) bshape bc p)
+    s!"model={String.join model} spec={String.join spec} closed={String.join closed} loopok={if hmLoopOk shape bshape then 1 else 0}"
   | "holesblock" =>
     let nb := neighbours bshape bc
     let idxs := (List.range (a.nat "hi" - a.nat "lo")).map (· + a.nat "lo")
@@ -259,5 +375,11 @@ def handle (a : Args) : String :=
     let spec := idxs.map fun idx => digits ((closeHolesSpec (bitImg shape idx) nb).toList.map fun b => if b then 1 else 0)
     s!"model={String.join model} spec={String.join spec}"
   | k => s!"error=unknown-kind-{k}"
+
+def handle (a : Args) : String :=
+  let shape := a.nats "shape"
+  match elemOf a shape.length with
+  | .ok (bshape, bc) => handleWith a shape bshape bc
+  | .error e => s!"error=structuring-element-{e}"
 
 end Mahotas.C14
